@@ -2,15 +2,20 @@
   QEModel.C10 — simulated Markov-chain paths and inverse-CDF draws.
   Mirrors (code as it is after the `fix:` commits b48648a, cb99317):
     quantecon/util/array.py        searchsorted (54-62), searchsorted_cdf (90-95)
-    quantecon/markov/core.py       cdfs (417-424), cdfs1d (426-437),
-                                   simulate_indices (469-520), simulate (554-564, get_index),
-                                   _generate_sample_paths (596-603),
-                                   _generate_sample_paths_sparse (641-651), mc_sample_path (704-715)
-    quantecon/_discrete_rv.py      DiscreteRV.__init__/draw
-    quantecon/random/utilities.py  draw
-  Everything is generic in the scalar: only `<` (decidable), `==` and `+` are used,
-  so the same definitions run at `Float` (bit-for-bit with NumPy/Numba) and `Rat`.
-  Random numbers are *inputs* of the model (the uniforms the generator produced).
+    quantecon/markov/core.py       __init__ checks (177-197; exact-arithmetic reading: acceptChain),
+                                   get_index/_get_index (258-310: getIndex, getIndexSV),
+                                   cdfs (417-424), cdfs1d (426-437),
+                                   simulate_indices (469-520: initStates, simulateIndices),
+                                   simulate (554-564: simulate, simulateSV/annotate),
+                                   _generate_sample_paths (596-603: denseStep, pathDense),
+                                   _generate_sample_paths_sparse (641-651: sparseStep, pathSparse),
+                                   mc_sample_path (704-715: mcSamplePath)
+    quantecon/_discrete_rv.py      DiscreteRV.__init__/draw (drvDraw, npSearchRight/Left)
+    quantecon/random/utilities.py  draw (both the Python body and the Numba overload: draw)
+  Everything on the simulation path is generic in the scalar: only `<` (decidable), `==` and `+`
+  are used, so the same definitions run at `Float` (bit-for-bit with NumPy/Numba) and `Rat`.
+  Random numbers are *inputs* of the model (the uniforms / integers the generator produced).
+  Parameters (not modelled): NumPy's bit generators, `rng_integers`, `np.asarray` conversions.
 -/
 import QEModel.Base
 namespace QE.C10
@@ -213,6 +218,54 @@ def simulate (n : Nat) (f : Nat → List α → Option (List Nat)) (init : Init)
   | .error e => .error e
   | .ok i => simulateIndices n f i numReps drawn ts us
 
+/-! ### `simulate` with 1-D `state_values` (get_index 258-310, annotation 561-562) -/
+
+/-- `_get_index`: `np.where(state_values == value)[0][0]`, `ValueError` if absent -/
+def getIndexSV (sv : List Int) (init : Init) : Except Err Init :=
+  match init with
+  | .none => .ok .none
+  | .scalar v =>
+    match sv.findIdx? (· == v) with
+    | some i => .ok (.scalar (Int.ofNat i))
+    | Option.none => .error .valueError
+  | .arr l =>
+    match l.mapM (fun v => sv.findIdx? (· == v)) with
+    | some is => .ok (.arr (is.map Int.ofNat))
+    | Option.none => .error .valueError
+
+/-- `X = state_values[X]`; `none` if an index is not a position of `state_values` -/
+def annotate (sv : List Int) (paths : List (List Nat)) : Option (List (List Int)) :=
+  paths.mapM fun p => p.mapM fun s => sv[s]?
+
+/-- `simulate` when `state_values` is a 1-D integer array of length `n` -/
+def simulateSV (sv : List Int) (n : Nat) (f : Nat → List α → Option (List Nat)) (init : Init)
+    (numReps : Option Nat) (drawn : List Nat) (ts : Nat) (us : List (List α)) :
+    Except Err (Option (Nat × List (List Int))) :=
+  match getIndexSV sv init with
+  | .error e => .error e
+  | .ok i =>
+    match simulateIndices n f i numReps drawn ts us with
+    | .error e => .error e
+    | .ok Option.none => .ok Option.none
+    | .ok (some r) => .ok ((annotate sv r.paths).map fun X => (r.dim, X))
+
+/-! ### mc_sample_path (markov/core.py 704-715) -/
+
+/-- `init` of `mc_sample_path`: a state, or an initial distribution with the uniform `u_0`
+    drawn for it -/
+inductive McInit (α : Type)
+  | state (i : Int)
+  | dist (d : List α) (u0 : α)
+
+/-- `X_0 = init` or `searchsorted_cdf(cumsum(init), u_0)`, then
+    `MarkovChain(P).simulate(ts_length=sample_size, init=X_0)` with one row of uniforms -/
+def mcSamplePath [Add α] [LT α] [DecidableLT α] [BEq α] (P : List (List α)) (init : McInit α)
+    (ts : Nat) (us : List (List α)) : Except Err (Option SimRes) :=
+  let x0 : Int := match init with
+    | .state i => i
+    | .dist d u0 => searchsortedCdfPy (cumsum d) u0
+  simulate P.length (pathDense (cdfsDense P)) (.scalar x0) Option.none [] ts us
+
 /-! ### DiscreteRV.draw, random.draw -/
 
 /-- `a.searchsorted(v, side='right')` on a sorted array: number of leading entries `≤ v` -/
@@ -236,6 +289,29 @@ def drvDraw [Add α] [LT α] [DecidableLT α] (q us : List α) : Option (List Na
 /-- `quantecon.random.draw(cdf, size)` with uniforms `us` -/
 def draw [LT α] [DecidableLT α] [BEq α] (cdf us : List α) : List Int :=
   us.map (searchsortedCdfPy cdf)
+
+/-! ### the constructor's checks (markov/core.py 177-197), in exact arithmetic -/
+
+/-- exact row sum -/
+def rsum : List Rat → Rat
+  | [] => 0
+  | x :: xs => x + rsum xs
+
+/-- `np.allclose(s, 1)`: `|s − 1| ≤ atol + rtol·|1|` with the default `rtol = 1e-5`, `atol = 1e-8`
+    (as exact rationals; the code evaluates the same test in doubles on a rounded sum, which can
+    differ only for sums within ~1e-15 of the boundary) -/
+def closeToOne (s : Rat) : Bool :=
+  let d := s - 1
+  let a := if d < 0 then -d else d
+  decide (a ≤ (1 : Rat) / 100000000 + (1 : Rat) / 100000)
+
+/-- `MarkovChain.__init__`: square, nonnegative, rows summing to one within the tolerance;
+    every failure is a `ValueError` -/
+def acceptChain (P : List (List Rat)) : Except Err Unit :=
+  if !(P.all fun r => r.length == P.length) then .error .valueError
+  else if !(P.all fun r => r.all fun x => decide (0 ≤ x)) then .error .valueError
+  else if !(P.all fun r => closeToOne (rsum r)) then .error .valueError
+  else .ok ()
 
 /-! ### line protocol -/
 
@@ -275,13 +351,18 @@ structure SimArgs where
   drawn : List Nat
   viaSim : Bool
   ts : Nat
+  sv : Option (List Int) := Option.none
 
 def simArgs (r : List String) : Option SimArgs :=
   match (kv r "init").bind parseInit?, (kv r "reps").bind parseReps?, kvNats r "drawn", kv r "via",
         kvNat r "ts" with
   | some i, some reps, some d, some via, some ts =>
-    if via = "indices" then some ⟨i, reps, d, false, ts⟩
-    else if via = "simulate" then some ⟨i, reps, d, true, ts⟩ else none
+    if via = "indices" then some ⟨i, reps, d, false, ts, Option.none⟩
+    else if via = "simulate" then
+      match kv r "sv" with
+      | Option.none => some ⟨i, reps, d, true, ts, Option.none⟩
+      | some t => (parseList? parseInt? t).map fun sv => ⟨i, reps, d, true, ts, some sv⟩
+    else none
   | _, _, _, _, _ => none
 
 /-- on the wire a `(k, 0)` array of uniforms cannot be told from a `(0, ·)` one (`-`);
@@ -293,16 +374,27 @@ def showRes : Except Err (Option SimRes) → String
   | .error e => showErr e
   | .ok r => showSim r
 
+def showResSV : Except Err (Option (Nat × List (List Int))) → String
+  | .error e => showErr e
+  | .ok Option.none => "model-out-of-domain"
+  | .ok (some (dim, X)) => "dim=" ++ toString dim ++ "|k=" ++ toString X.length ++ "|X=" ++ showMat toString X
+
 def runSim (n : Nat) (f : Nat → List α → Option (List Nat)) (a : SimArgs) (us : List (List α)) : String :=
-  let init' : Except Err Init := if a.viaSim then getIndex n a.init else .ok a.init
+  let init' : Except Err Init :=
+    match a.viaSim, a.sv with
+    | false, _ => .ok a.init
+    | true, Option.none => getIndex n a.init
+    | true, some sv => getIndexSV sv a.init
   let k := match init' with
     | .error _ => 0
     | .ok i => match initStates n i a.reps a.drawn with
       | .error _ => 0
       | .ok ir => ir.states.length
   let us' := fixUs k a.ts us
-  showRes (if a.viaSim then simulate n f a.init a.reps a.drawn a.ts us'
-           else simulateIndices n f a.init a.reps a.drawn a.ts us')
+  match a.viaSim, a.sv with
+  | false, _ => showRes (simulateIndices n f a.init a.reps a.drawn a.ts us')
+  | true, Option.none => showRes (simulate n f a.init a.reps a.drawn a.ts us')
+  | true, some sv => showResSV (simulateSV sv n f a.init a.reps a.drawn a.ts us')
 
 def handleSc [Add α] [LT α] [DecidableLT α] [BEq α] (sc : Sc α) (toks : List String) : String :=
   match toks with
@@ -346,21 +438,26 @@ def handleSc [Add α] [LT α] [DecidableLT α] [BEq α] (sc : Sc α) (toks : Lis
     -- then MarkovChain(P).simulate(ts_length, init=X_0) with the uniforms `u` (one row)
     match sc.mat r "P", sc.mat r "u" with
     | some P, some us =>
-      let x0? : Option Int :=
+      let init? : Option (McInit α) :=
         match kvInt r "x0", sc.list r "dist", (kv r "u0").bind sc.one with
-        | some i, _, _ => some i
-        | none, some d, some u0 => some (searchsortedCdfPy (cumsum d) u0)
+        | some i, _, _ => some (.state i)
+        | none, some d, some u0 => some (.dist d u0)
         | _, _, _ => none
-      match x0? with
-      | some x0 =>
-        match kvNat r "ts" with
-        | some ts => runSim P.length (pathDense (cdfsDense P)) ⟨Init.scalar x0, Option.none, [], true, ts⟩ us
-        | none => "bad-op"
-      | none => "bad-op"
+      match init?, kvNat r "ts" with
+      | some init, some ts => showRes (mcSamplePath P init ts (fixUs 1 ts us))
+      | _, _ => "bad-op"
     | _, _ => "bad-op"
   | _ => "bad-op"
 
+def handleAccept (toks : List String) : String :=
+  match kvRatMat toks "P" with
+  | some P => match acceptChain P with
+    | .ok _ => "ok"
+    | .error e => showErr e
+  | none => "bad-op"
+
 def handle (toks : List String) : String :=
+  if toks.head? == some "accept" then handleAccept toks else
   match kv toks "sc" with
   | some "float" => handleSc scFloat toks
   | some "rat" => handleSc scRat toks
